@@ -728,7 +728,37 @@ def o_C08(sc):
     return None
 
 
+def o_C13_large(sc):
+    """valid trains at large absolute times (edges 2^34 … 1.7e12, as for time stamps), spikes ON both edges: reconciling
+    leaves them as they are and every measure is the same with the default and with Reconcile=False (finding F16, fixed:
+    the absolute tolerance 1e-6 vanishes in the rounding of tEnd+1e-6 there). The shape of the trains comes from the
+    scenario, the offsets are fixed."""
+    tr = [t for t in sc['trains'][:3]]
+    if len(tr) < 2 or 'own0' in sc or 'dup' in sc or 'forms' in sc:
+        return None
+    for T in (2.0 ** 34, 2.0 ** 36 + 1024.0, 1.7e12):
+        L = []
+        for s_, a_, b_ in tr:
+            a_, b_ = Fr(a_), Fr(b_)
+            f = lambda t: T + float(round(64 * (Fr(t) - a_) / (b_ - a_)))          # integer grid 0..64: exact in doubles
+            inner = sorted({f(t) for t in s_} | {T, T + 64.0})                       # plus a spike on each edge
+            L.append(SpikeTrain(np.array(inner), [T, T + 64.0]))
+        R = quiet(spk.spikes.reconcile_spike_trains, L)
+        for r, l in zip(R, L):
+            if list(r.spikes) != list(l.spikes) or r.t_start != l.t_start or r.t_end != l.t_end:
+                return 'C13 valid trains at t = %r: reconcile returns %s for %s' % (T, [x - T for x in r.spikes], [x - T for x in l.spikes])
+        for name, fn in (('isi_distance', spk.isi_distance), ('spike_distance', spk.spike_distance), ('spike_sync', spk.spike_sync)):
+            v1, v0 = quiet(fn, L), quiet(fn, L, Reconcile=False)
+            w1, w0 = quiet(fn, L[0], L[1]), quiet(fn, L[0], L[1], Reconcile=False)
+            if not feq(v1, v0) or not feq(w1, w0):
+                return 'C13 valid trains at t = %r: %s = %r / %r by default but %r / %r with Reconcile=False' % (T, name, v1, w1, v0, w0)
+    return None
+
+
 def o_C13(sc):
+    r_ = o_C13_large(sc)
+    if r_:
+        return r_
     """sc['raw'] = [(spikes, ts, te)…] disordered; sc['trains'] = the same reconciled by definition"""
     raw = [SpikeTrain(np.array([float(v) for v in s]), [float(a), float(b)], is_sorted=True) for s, a, b in sc['raw']]
     snap = [(np.array(t.spikes, dtype=float).copy(), t.t_start, t.t_end) for t in raw]
